@@ -115,6 +115,17 @@ impl StateMachine<'_> {
                 self.minus_line_counter.count_line();
                 state
             }
+            None if self.line.is_empty() && self.minus_line_counter.lines_remaining() => {
+                // Lines of the old file are still due in this hunk of diff -u output, so this
+                // is an unchanged empty line whose blank was dropped (diff -u
+                // --suppress-blank-empty, or stripped on the way): it is shown and counted as
+                // the unchanged line it is.
+                self.painter.paint_buffered_minus_and_plus_lines();
+                let state = State::HunkZero(Unified, None);
+                self.painter.paint_zero_line("\n", state.clone());
+                self.minus_line_counter.count_line();
+                state
+            }
             _ => {
                 // The first character here could be e.g. '\' from '\ No newline at end of file'. This
                 // is not a hunk line, but the parser does not have a more accurate state corresponding
